@@ -2,7 +2,7 @@
   UnytModel.Ops.C04 — opcodes of the C04 model (prefix `c04.`).
 
   c04.rules                                     dump of the regenerated tables (translator cross-check)
-  c04.lutadd  name scale dim prefixable         `registry.add(name, scale, dim, prefixable=…)` on table 0
+  c04.lutadd  name scale [offset] dim prefixable `registry.add(name, scale, dim, offset=…, prefixable=…)` on table 0
   c04.cancel  coeff factors                     `_cancel_mul(expr, registry)`
   c04.binary  ufunc k0 <unit0> z0 k1 <unit1> z1 pexp x0 x1
                                                 the binary value path (`k` = q: quantity, b: bare;
@@ -128,6 +128,11 @@ def stepC04 (st : DriverState) (fields : List String) : Option (DriverState × S
     | some s, some d, some p =>
       some ({ st with luts := st.luts.set! 0 (t.set name ⟨s, d, 0, p⟩) }, "ok")
     | _, _, _ => some (st, "bad-op")
+  | ["c04.lutadd", name, sc, off, dim, pf] =>
+    match fb sc, fb off, Dim.parse dim, parseBool pf with
+    | some s, some o, some d, some p =>
+      some ({ st with luts := st.luts.set! 0 (t.set name ⟨s, d, o, p⟩) }, "ok")
+    | _, _, _, _ => some (st, "bad-op")
   | ["c04.cancel", co, fac] =>
     match fb co, Factors.parse fac with
     | some c, some f =>
